@@ -12,6 +12,7 @@ Clone/Copy/PartialEq/Eq (Debug, Hash, Default, serde, Is, PartialOrd ... are dro
 `pub(crate)`/`pub(super)` -> `pub`.
 """
 import hashlib
+import os
 import re
 from dataclasses import dataclass, field
 from .rustlex import RustFile, Item, ExtractError
@@ -133,7 +134,7 @@ class FnSplicer:
     def splice(self):
         rf, it, spec = self.rf, self.it, self.spec
         known = {'result', 'requires', 'ensures', 'decreases', 'loops', 'proofs', 'closures', 'props', 'note',
-                 'unroll_fn_array', 'opens_invariants', 'no_unwind', 'external_body', 'returns', 'mode_attr', 'assumed'}
+                 'unroll_fn_array', 'opens_invariants', 'no_unwind', 'external_body', 'returns', 'mode_attr', 'assumed', 'slice_matches'}
         bad = set(spec) - known
         if bad:
             raise ExtractError(f'unknown spec keys {bad}')
@@ -190,6 +191,9 @@ class FnSplicer:
         # --- fn-item array unrolling (R2)
         if spec.get('unroll_fn_array'):
             self._r2(spec['unroll_fn_array'])
+        # --- slice patterns inside matches! (R6)
+        if spec.get('slice_matches'):
+            self._r6()
         # --- proof / ghost insertions
         for p in spec.get('proofs', []):
             self._splice_proof(p, loops)
@@ -348,6 +352,52 @@ class FnSplicer:
         self.ed.replace(rf.ct(ci).start, rf.ct(f + len(exp) - 1).end, chain)
         self.desugared.append({'rule': 'R2', 'before': before, 'after': chain})
 
+    def _r6(self):
+        """R6: `matches!(E, [P0, .., Pk-1, ..])` (a slice pattern with a trailing rest and no bindings) =>
+        `(E.len() >= k && matches!(E[0], P0) && .. && matches!(E[k-1], Pk-1))`. E must be a plain identifier.
+        This Verus rejects slice patterns; the rewrite is the definition of slice-pattern matching."""
+        rf, it = self.rf, self.it
+        ci = it.body[0] + 1; end = it.body[1]; found = 0
+        while ci < end:
+            if rf.ct(ci).text == 'matches' and rf.ct(ci + 1).text == '!' and rf.ct(ci + 2).text == '(':
+                close = rf.match(ci + 2)
+                k = ci + 3
+                if rf.ct(k).kind == 'ident' and rf.ct(k + 1).text == ',' and rf.ct(k + 2).text == '[':
+                    E = rf.ct(k).text
+                    lb = k + 2; rb = rf.match(lb)
+                    # optional trailing comma before ')'
+                    if not (rb + 1 == close or (rf.ct(rb + 1).text == ',' and rb + 2 == close)):
+                        ci += 1; continue
+                    # split top-level patterns
+                    pats = []; cur = lb + 1; j = lb + 1
+                    while j < rb:
+                        t = rf.ct(j).text
+                        if t in ('(', '[', '{'):
+                            j = rf.match(j) + 1; continue
+                        if t == ',':
+                            pats.append((cur, j)); cur = j + 1
+                        j += 1
+                    if cur < rb:
+                        pats.append((cur, rb))
+                    texts = [rf.spaced(a, b).strip() for a, b in pats]
+                    if not texts or texts[-1] != '..' or any(p == '..' for p in texts[:-1]):
+                        raise ExtractError(f'{self._where()}: R6 handles only slice patterns of the form [P0, .., Pk-1, ..]')
+                    for p in texts[:-1]:
+                        if re.search(r'\b(ref|mut)\b|@', p) or re.fullmatch(r'[a-z_][a-z0-9_]*', p):
+                            raise ExtractError(f'{self._where()}: R6: pattern `{p}` binds a variable')
+                    n = len(texts) - 1
+                    parts = [f'{E}.len() >= {n}'] + [f'matches!({E}[{i}], {p})' for i, p in enumerate(texts[:-1])]
+                    before = rf.spaced(ci, close + 1)
+                    after = '(' + ' && '.join(parts) + ')'
+                    self.ed.replace(rf.ct(ci).start, rf.ct(close).end, after)
+                    self.desugared.append({'rule': 'R6', 'before': ' '.join(before.split()), 'after': ' '.join(after.split())})
+                    found += 1
+                    ci = close + 1
+                    continue
+            ci += 1
+        if not found:
+            raise ExtractError(f'{self._where()}: R6 requested but no `matches!(x, [.., ..])` found')
+
     def _splice_proof(self, p, loops):
         rf, it = self.rf, self.it
         kind = p.get('kind', 'proof')
@@ -451,6 +501,7 @@ class Unit:
         self.pieces = []
         self._files = {}
         self.header = ''
+        self.canary = bool(os.environ.get('VX_CANARY'))
 
     def file(self, rel):
         if rel not in self._files:
@@ -530,6 +581,10 @@ class Unit:
         _clean_tokens(rf, ed, it.start, it.end, it.attrs)
         sp = FnSplicer(rf, it, spec, ed)
         sp.splice()
+        if self.canary and it.body is not None and not spec.get('external_body'):
+            # vacuity canary: `assert(false)` at body start is checked under the preconditions alone; it must FAIL.
+            # (It passes only if the spliced `requires` are contradictory.)
+            ed.insert(rf.ct(it.body[0]).end, '\nproof { assert(false); } // __vx_canary\n', 2)
         if spec.get('external_body') and it.body is not None:
             # contract assumed: the body is not sent to the verifier at all (only the signature is kept)
             ed.delete(rf.ct(it.body[0]).start, rf.ct(it.body[1]).end)
